@@ -411,6 +411,7 @@ func (r *Runner) printSummary(res *runResult) {
 func (w *World) isCalledHelper(key string) bool {
 	if w.calledFuncs == nil {
 		w.calledFuncs = map[string]bool{}
+		w.callers = map[string][]string{}
 		for k, decl := range w.FuncDecls {
 			pkg := w.FuncPkg[k]
 			if pkg == nil || decl.Body == nil {
@@ -431,6 +432,7 @@ func (w *World) isCalledHelper(key string) bool {
 				if id != nil {
 					if fn, ok := pkg.TypesInfo.ObjectOf(id).(*types.Func); ok && fn.FullName() != k {
 						w.calledFuncs[fn.FullName()] = true
+						w.callers[fn.FullName()] = append(w.callers[fn.FullName()], k)
 					}
 				}
 				return true
@@ -489,4 +491,19 @@ func (w *World) genNames(repo string) {
 		}
 		fmt.Println("updated", file, len(eds), "contracts")
 	}
+}
+
+// verifiedInPlace: a helper without a written contract all of whose callers are verified (directly or, again, in
+// place): its body is part of their verification conditions.
+func (w *World) verifiedInPlace(key string, verified map[string]bool, seen map[string]bool) bool {
+	if seen[key] || w.Contracts[key] != nil || !w.isCalledHelper(key) {
+		return false
+	}
+	seen[key] = true
+	for _, c := range w.callers[key] {
+		if !verified[c] && !w.verifiedInPlace(c, verified, seen) {
+			return false
+		}
+	}
+	return len(w.callers[key]) > 0
 }
